@@ -209,6 +209,63 @@ def takeover(s1: int, s2: int, action: int, which: bool) -> bool:
     return hx.holds(inputs, p.connection is None or p.connection is other, obs, "peer.connection references a connection that has ended")
 
 
+def unrelated_loss(s1: int, s2: int, what: int) -> bool:
+    """
+    pre: 0 <= s1 <= 3 and 0 <= s2 <= 1 and 0 <= what <= 2
+    post: _
+    """
+    hx.begin()
+    # peer 1 holds two connections - the registered one A (ready / awaiting a DWA / dialled and awaiting its CEA / dialled and
+    # still connecting) and an inbound one B that is ready (or awaiting a DWA); then a connection that has nothing to do with
+    # the peer ends (a stranger before its CER / peer 2's ready connection / a refused stranger).  The application of peer 1
+    # must keep reporting ready.
+    a_state = ["ready", "waiting_dwa", "out_pre_cea", "out_connecting"][hx.concretize_range(s1, 0, 4)]
+    b_state = ["ready", "waiting_dwa"][hx.concretize_range(s2, 0, 2)]
+    which = ["stranger_pre_cer", "peer2_ready", "stranger_refused"][hx.concretize_range(what, 0, 3)]
+    inputs = (s1, s2, what)
+    try:
+        with hx.untraced():
+            h = H.Hist(init="fresh", persistent=False, n_peers=2)
+            b, n, app, p = h.b, h.n, h.app, h.p
+            if a_state == "out_connecting":
+                WORLD.connect_plan.append("pending")
+                n._connect_to_peer(p)
+                ca = h.newest()
+                n.peer_sockets.get(ca.ident).connect_plan = "pending"
+                h.settle()
+            elif a_state == "out_pre_cea":
+                h.ev_dial("ok")
+            else:
+                h.ev_accept()
+                h.ev_cer(B.PEER_HOSTS[0], [4])
+                if a_state == "waiting_dwa":
+                    n.send_dwr(h.newest())
+                    h.settle()
+            h.ev_accept()
+            h.ev_cer(B.PEER_HOSTS[0], [4])
+            cb = h.newest()
+            if b_state == "waiting_dwa":
+                n.send_dwr(cb)
+                h.settle()
+            b_ready = cb.state in B.PEER_READY_STATES and cb.ident in n.connections
+            before = app.is_ready.is_set()
+            h.ev_accept()
+            other = h.newest()
+            if which == "peer2_ready":
+                h.ev_cer(B.PEER_HOSTS[1], [4])
+            elif which == "stranger_refused":
+                h.ev_cer("stranger.local.realm", [4])
+            if other.ident in n.connections:
+                h.ev_gone(other)
+            still = cb.state in B.PEER_READY_STATES and cb.ident in n.connections
+            obs = (b_ready, before, still, app.is_ready.is_set())
+    except Exception as e:
+        return hx.fail(inputs, "raised %s: %s" % (type(e).__name__, str(e)[:80]))
+    if not (b_ready and still):
+        return hx.holds(inputs, True, obs, "")          # (B did not become / stay ready: election or refusal - nothing to demand)
+    return hx.check(inputs, obs, (True, True, True, True), "a connection of the peer is ready but its application reports not ready after an unrelated connection ended")
+
+
 def foreign_cea(loss: int) -> bool:
     """
     pre: 0 <= loss <= 1
@@ -240,6 +297,8 @@ def specs(tier, seed, carve):
     rnd = random.Random(seed)
     out = [dict(id="readiness", fn="readiness", params={}, timeout=600,
                 bound="2 peers configured for one application (both in the node's realm / one of them in another realm; the application registered before or after the connections were established), each in {no connection, ready, awaiting DWA, disconnecting, pre-CE}; then one of them loses its connection (peer gone / node-initiated close / nothing)")]
+    out.append(dict(id="unrelated_loss", fn="unrelated_loss", params={}, timeout=300,
+                    bound="one peer with two connections (registered one ready / awaiting DWA / dialled awaiting CEA / dialled still connecting; second one inbound ready or awaiting DWA), then an unrelated connection (stranger before CER, refused stranger, the other peer's ready connection) ends"))
     out.append(dict(id="foreign_cea", fn="foreign_cea", params={}, timeout=300,
                     bound="two configured peers; the connection dialled to peer1 is answered by a CEA carrying peer2's identity, then lost (peer gone / node close)"))
     out.append(dict(id="takeover", fn="takeover", params={}, timeout=600,
